@@ -7,14 +7,14 @@
 (* ticks, driver faults, application calls).  -1 marks a byte / argument   *)
 (* the harness fills from the seeded PRNG.  The oracle is instrumentation  *)
 (* of the real code: ASan/UBSan, CONodeFatalError, watchdog, frame flood.  *)
-(* A light abstract state (mode guess, open SDO transfer guess) biases the *)
-(* generator towards deep protocol states instead of uniform noise.        *)
+(* Two-level choice (group of letters, then letter) keeps the services     *)
+(* balanced instead of letting the largest sub-alphabet dominate.          *)
 (***************************************************************************)
 EXTENDS Integers, Sequences, FiniteSets, TLC, Json
 CONSTANTS NodeId, SrvNode, WalkLen, DictName
-VARIABLES hist, phase
-\* phase: what the last SDO-ish frame most likely left open: "idle", "dseg", "useg", "bdl", "bul"
-vars == <<hist, phase>>
+VARIABLES hist, grp
+\* grp: 0 = the next step picks a group; g > 0 = the next step picks a letter of Groups[g]
+vars == <<hist, grp>>
 Rx(id, dlc, bytes) == <<"rx", id, dlc>> \o bytes \o [i \in 1..(8 - Len(bytes)) |-> -1]
 SdoRx == 1536 + NodeId
 SdoRx2 == 1552
@@ -29,30 +29,38 @@ SdoLetters(rxid) == {Rx(rxid, 8, <<c>> \o m) : c \in SdoCmds, m \in Muxes} \cup 
                     \cup {Rx(rxid, 8, <<162, a, b>>) : a \in {0, 1, 2, 3, 126, 127, 128, ANY}, b \in {0, 1, 3, 127, 128, ANY}}
                     \cup {Rx(rxid, 8, <<c, 0, 32, 16>> \o sz) : c \in {33, 194, 198}, sz \in {<<0, 0, 0, 0>>, <<9, 0, 0, 0>>, <<122, 3, 0, 0>>, <<255, 255, 255, 255>>, <<ANY, ANY, 0, 0>>}}
                     \cup {Rx(rxid, 8, <<160, m[1], m[2], m[3], bs>>) : m \in Muxes, bs \in {0, 1, 3, 127, 128, 255}}
-Letters ==
-     SdoLetters(SdoRx) \cup SdoLetters(SdoRx2)
-\cup {Rx(0, d, <<cs, t>>) : d \in {0, 1, 2, 8}, cs \in {1, 2, 128, 129, 130, ANY}, t \in {0, NodeId, ANY}}
-\cup {Rx(128, d, <<>>) : d \in {0, 1, 8}} \cup {Rx(129, 0, <<>>)}
-\cup {Rx(id, d, <<>>) : id \in {512 + NodeId, 768 + NodeId, 1024 + NodeId, 1280 + NodeId, 384 + NodeId, 128 + NodeId}, d \in {0, 1, 3, 8}}
-\cup {Rx(1792 + x, d, <<st>>) : x \in {0, 10, 11, 127, NodeId}, d \in {0, 1, 8}, st \in {0, 4, 5, 127, ANY}}
-\cup {Rx(2021, d, <<cs>>) : d \in {0, 8}, cs \in {4, 17, 19, 21, 23, 64, 65, 66, 67, 70, 71, 72, 73, 74, 75, 76, 90, 91, 92, 93, 94, ANY}}
-\cup {Rx(2021, 8, <<4, 1>>), Rx(2021, 8, <<21, 2, 0>>), Rx(2021, 8, <<21, 0, 0>>), Rx(2021, 8, <<17, ANY>>), Rx(2021, 8, <<19, ANY, ANY>>), Rx(2020, 8, <<>>)}
-\cup {Rx(1408 + SrvNode, 8, <<c>>) : c \in {65, 67, 75, 79, 96, 32, 48, 0, 16, 1, 17, 128, 224, ANY}}
-\cup {Rx(ANY, ANY, <<>>)}
-\cup {<<"tick">>, <<"tick">>, <<"svc">>, <<"proc">>, <<"poll0">>, <<"pollerr">>, <<"fault_can", 1>>, <<"fault_can", 3>>, <<"fault_nvm", 1, 1>>, <<"fault_nvm", 2, 2>>, <<"get_err">>}
-\cup {<<"nmt_set", m>> : m \in 0..4} \cup {<<"nmt_reset", t>> : t \in {1, 2, 0}}
-\cup {<<"emcy_set", e>> : e \in {0, 1, 3, 31, 32, 200}} \cup {<<"emcy_set", 1, 1, 2, 3, 4, 5, 6, 7>>} \cup {<<"emcy_clr", e>> : e \in {0, 1, 31, 32}} \cup {<<"emcy_reset", 0>>, <<"emcy_reset", 1>>, <<"emcy_cnt">>}
-\cup {<<"tpdo_trig", k>> : k \in {0, 1, 3, 4, 200}} \cup {<<"obj_trig", 8448, 0>>, <<"obj_trig", 8450, 0>>}
-\cup {<<"wr8", 8448, 0, ANY>>, <<"wr16", 4119, 0, ANY, 0>>, <<"wr16", 6144, 5, ANY, 0>>, <<"wr16", 6148, 5, 3, 0>>, <<"wr32", 4118, 1, ANY, 0, ANY, 0>>, <<"wr32", 4101, 0, 128, 0, 0, ANY>>, <<"wr32", 4102, 0, ANY, ANY, 0, 0>>,
-      <<"wr32", 6144, 1, 133, 1, 0, ANY>>, <<"wr32", 5120, 1, 5, 2, 0, ANY>>, <<"wr32", 4112, 1, 115, 97, 118, 101>>, <<"wr32", 4113, 1, 108, 111, 97, 100>>, <<"wr8", 4099, 0, ANY>>}
-\cup {<<"rd32", 4099, k>> : k \in {1, 2, 3}} \cup {<<"rdbuf", 8464, 1, n>> : n \in {0, 1, 9, 300}} \cup {<<"wrbuf", 8464, 2, n, 1>> : n \in {0, 1, 30, 300}} \cup {<<"rdbuf", 8480, 1, 20>>, <<"find", ANY, ANY>>}
-\cup {<<"hb_events", 10>>, <<"hb_last", 11>>, <<"csdo_up", 0, 8448, 0, 4, 2>>, <<"csdo_up", 0, 8448, 0, 9, 0>>, <<"csdo_down", 0, 8448, 0, 263, 3, 0, 1>>, <<"csdo_down", 0, 8448, 0, 3, 1, 0, 1>>}
-\cup {<<"tmr_create", 1, 2, 2>>, <<"tmr_create", 2, 1, 0>>, <<"tmr_delete", 1>>, <<"tmr_delete", 2>>, <<"tmr_delete", -2>>, <<"stop">>, <<"start">>, <<"pool">>}
-Init == hist = <<>> /\ phase = "idle"
+GSdo1 == SdoLetters(SdoRx)
+GSdo2 == SdoLetters(SdoRx2)
+GNmt == {Rx(0, d, <<cs, t>>) : d \in {0, 1, 2, 8}, cs \in {1, 2, 128, 129, 130, ANY}, t \in {0, NodeId, ANY}}
+GStart == {Rx(0, 2, <<1, 0>>), Rx(0, 2, <<1, NodeId>>)}
+GSync == {Rx(128, d, <<>>) : d \in {0, 1, 8}} \cup {Rx(129, 0, <<>>)}
+GPdo == {Rx(id, d, <<>>) : id \in {512 + NodeId, 768 + NodeId, 1024 + NodeId, 1280 + NodeId, 384 + NodeId, 128 + NodeId}, d \in {0, 1, 3, 8}}
+GHb == {Rx(1792 + x, d, <<st>>) : x \in {0, 10, 11, 127, NodeId}, d \in {0, 1, 8}, st \in {0, 4, 5, 127, ANY}}
+GLss == {Rx(2021, d, <<cs>>) : d \in {0, 8}, cs \in {4, 17, 19, 21, 23, 64, 65, 66, 67, 70, 71, 72, 73, 74, 75, 76, 90, 91, 92, 93, 94, ANY}}
+        \cup {Rx(2021, 8, <<4, 1>>), Rx(2021, 8, <<21, 2, 0>>), Rx(2021, 8, <<21, 0, 0>>), Rx(2021, 8, <<17, ANY>>), Rx(2021, 8, <<19, ANY, ANY>>), Rx(2020, 8, <<>>)}
+        \cup {Rx(2021, 8, <<19, 0, b>>) : b \in {0, 5, 8, 9, 10, 11, 255}} \cup {Rx(2021, 8, <<17, v>>) : v \in {0, 1, 127, 128, 255}}
+GLssConf == {Rx(2021, 8, <<4, 1>>)}
+GCsdoRx == {Rx(1408 + SrvNode, 8, <<c>>) : c \in {65, 67, 75, 79, 96, 32, 48, 0, 16, 1, 17, 128, 224, ANY}}
+GAny == {Rx(ANY, ANY, <<>>)}
+GTime == {<<"tick">>, <<"svc">>, <<"proc">>, <<"poll0">>, <<"pollerr">>, <<"fault_can", 1>>, <<"fault_can", 3>>, <<"fault_nvm", 1, 1>>, <<"fault_nvm", 2, 2>>, <<"get_err">>}
+GTick == {<<"tick">>}
+GApiNmt == {<<"nmt_set", m>> : m \in 0..4} \cup {<<"nmt_reset", t>> : t \in {1, 2, 0}}
+           \cup {<<"emcy_set", e>> : e \in {0, 1, 3, 31, 32, 200}} \cup {<<"emcy_set", 1, 1, 2, 3, 4, 5, 6, 7>>} \cup {<<"emcy_clr", e>> : e \in {0, 1, 31, 32}} \cup {<<"emcy_reset", 0>>, <<"emcy_reset", 1>>, <<"emcy_cnt">>}
+GApiPdo == {<<"tpdo_trig", k>> : k \in {0, 1, 3, 4, 200}} \cup {<<"obj_trig", 8448, 0>>, <<"obj_trig", 8450, 0>>}
+           \cup {<<"wr8", 8448, 0, ANY>>, <<"wr16", 4119, 0, ANY, 0>>, <<"wr16", 6144, 5, ANY, 0>>, <<"wr16", 6148, 5, 3, 0>>, <<"wr32", 4118, 1, ANY, 0, ANY, 0>>, <<"wr32", 4101, 0, 128, 0, 0, ANY>>, <<"wr32", 4102, 0, ANY, ANY, 0, 0>>,
+                 <<"wr32", 6144, 1, 133, 1, 0, ANY>>, <<"wr32", 5120, 1, 5, 2, 0, ANY>>, <<"wr32", 4112, 1, 115, 97, 118, 101>>, <<"wr32", 4113, 1, 108, 111, 97, 100>>, <<"wr8", 4099, 0, ANY>>}
+GApiDict == {<<"rd32", 4099, k>> : k \in {1, 2, 3}} \cup {<<"rdbuf", 8464, 1, n>> : n \in {0, 1, 9, 300}} \cup {<<"wrbuf", 8464, 2, n, 1>> : n \in {0, 1, 30, 300}} \cup {<<"rdbuf", 8480, 1, 20>>, <<"find", ANY, ANY>>}
+GApiTmr == {<<"hb_events", 10>>, <<"hb_last", 11>>, <<"csdo_up", 0, 8448, 0, 4, 2>>, <<"csdo_up", 0, 8448, 0, 9, 0>>, <<"csdo_down", 0, 8448, 0, 263, 3, 0, 1>>, <<"csdo_down", 0, 8448, 0, 3, 1, 0, 1>>}
+           \cup {<<"tmr_create", 1, 2, 2>>, <<"tmr_create", 2, 1, 0>>, <<"tmr_delete", 1>>, <<"tmr_delete", 2>>, <<"tmr_delete", -2>>, <<"stop">>, <<"start">>, <<"pool">>}
+\* a walk step first picks a GROUP (uniformly over this sequence: a group listed twice is twice as likely), then a letter of it:
+\* with one flat alphabet 85 % of all events were SDO frames and OPERATIONAL was reached in a few per cent of the walks only
+Groups == <<GSdo1, GSdo1, GSdo1, GSdo2, GNmt, GStart, GStart, GSync, GSync, GPdo, GPdo, GHb, GLss, GLss, GLssConf, GCsdoRx, GAny, GTime, GTick, GTick, GApiNmt, GApiPdo, GApiPdo, GApiDict, GApiTmr>>
+Letters == UNION {Groups[g] : g \in 1..Len(Groups)}
+Init == hist = <<>> /\ grp = 0
 \* the last step of a walk is fixed so that every walk is emitted exactly once
-Next == /\ phase' = phase
-        /\ IF Len(hist) = WalkLen - 1 THEN hist' = Append(hist, [e |-> <<"pool">>, x |-> <<>>])
-           ELSE \E l \in Letters : hist' = Append(hist, [e |-> l, x |-> <<>>])
+Next == IF Len(hist) = WalkLen - 1 THEN hist' = Append(hist, [e |-> <<"pool">>, x |-> <<>>]) /\ grp' = 0
+        ELSE IF grp = 0 THEN \E g \in 1..Len(Groups) : grp' = g /\ hist' = hist
+        ELSE \E l \in Groups[grp] : hist' = Append(hist, [e |-> l, x |-> <<>>]) /\ grp' = 0
 EmitWalk == Len(hist) < WalkLen \/ (PrintT(<<"WALK", ToJson([c |-> [n |-> NodeId, srv |-> SrvNode, dict |-> DictName], h |-> hist, p |-> <<>>])>>) /\ FALSE)
 NLetters == Cardinality(Letters)
 =============================================================================
